@@ -2,8 +2,8 @@ module verifharness
 
 go 1.19
 
-require (
-	github.com/go-text/typesetting v0.0.0
-)
+require github.com/go-text/typesetting v0.0.0
+
+require golang.org/x/image v0.23.0 // indirect
 
 replace github.com/go-text/typesetting => /repo
